@@ -7,7 +7,7 @@ from itertools import permutations
 from typing import Iterable, Optional
 
 import networkx as nx
-from clingo import Number
+from clingo import Number, SymbolType
 from clingo.ast import AST, AggregateFunction, ASTType, Function, Sign, SymbolicTerm, Variable
 
 from ngo.dependency import DomainPredicates, RuleDependency
@@ -160,6 +160,15 @@ class InlineTranslator:
                 result_function = AggregateFunction.Sum
             if atom.function not in good[agg.function]:
                 return atom
+            # #sum+ skips negative weights and #sum does not
+            if agg.function == AggregateFunction.Sum and atom.function == AggregateFunction.SumPlus:
+                return atom
+            if (
+                agg.function == AggregateFunction.SumPlus
+                and atom.function == AggregateFunction.Sum
+                and not self._nonnegative_weights(agg)
+            ):
+                return atom
             agga = AggAnalytics(agg)
             # result is actually used in head
             for hv_pos, hv in enumerate(hatom.symbol.arguments):
@@ -197,6 +206,21 @@ class InlineTranslator:
             return atom.update(function=result_function, elements=rest_elems + new_elements)
         return atom
 
+    @staticmethod
+    def _nonnegative_weights(agg: AST) -> bool:
+        """True if the weight of every element of the aggregate is a non negative number"""
+        for elem in agg.elements:
+            if not elem.terms:
+                return False
+            weight = elem.terms[0]
+            if not (
+                weight.ast_type == ASTType.SymbolicTerm
+                and weight.symbol.type == SymbolType.Number
+                and weight.symbol.number >= 0
+            ):
+                return False
+        return True
+
     def inline_minimize(self, stm: AST) -> list[AST]:
         """inline sum/count that are inside weak constraint
         return possible more weak constraints"""
@@ -213,6 +237,9 @@ class InlineTranslator:
             return [stm]
 
         if agg.function not in (AggregateFunction.Count, AggregateFunction.Sum, AggregateFunction.SumPlus):
+            return [stm]
+        # an objective does not skip negative weights as #sum+ does
+        if agg.function == AggregateFunction.SumPlus and not self._nonnegative_weights(agg):
             return [stm]
         agga = AggAnalytics(agg)
         # only one equality
